@@ -11,7 +11,7 @@
    sub_ty                   = the order bool < int < float, String alone *)
 From Coq Require Import ZArith QArith List Bool.
 From RV Require Import Base.Wire Base.Text Lang.PyAst Lang.PySem Lang.Infer Lang.InferGuard Lang.InferSpec
-  Lang.Decl Lang.DeclSpec Lang.FnSpec Proofs.InferP Proofs.JoinP Proofs.DeclP Proofs.FnP.
+  Lang.InferComp Lang.Decl Lang.DeclSpec Lang.FnSpec Lang.AliasSpec Proofs.InferP Proofs.JoinP Proofs.DeclP Proofs.FnP Proofs.CompP.
 Import ListNotations.
 Open Scope Z_scope.
 
@@ -313,3 +313,101 @@ Example C02_loop_hoist_fresh_table :
     tlookup z_out (fd_locals d) = Some CFloat.
 Proof. exact loop_hoist_fresh_table. Qed.
 Print Assumptions C02_loop_hoist_fresh_table.
+
+(* ---------------------------------------------------------------- list comprehensions (Lang/InferComp.v)
+   RComp t n elt          = [elt for t in range(n)] ; RPlain e = an ordinary expression
+   infer_rhs_s            = _infer_expr_type on such a right-hand side: var_types[t] is set to "int" while the element
+                            is inferred and restored (or popped) afterwards
+   with_target G t body   = that bracket, as _infer_expr_type AND _to_c_expr apply it around their work on the element
+   eval_rhs               = CPython: the target is bound to 0 .. n-1 in a scope of its own *)
+
+(* inside the guard the label list[...] holds the list Python builds, and var_types is exactly what it was - whatever
+   the target shadows (a float, a str, nothing), however the comprehensions are nested *)
+Theorem C02_comprehension_sound_partial :
+  forall F A C r G rho t G1 v,
+    env_sound G rho -> rhs_guard F A C G r = true ->
+    infer_rhs_s F A C G r = Some (t, G1) -> eval_rhs rho r = Ok v ->
+    repr t v /\ G1 = G.
+Proof. exact rhs_sound. Qed.
+Print Assumptions C02_comprehension_sound_partial.
+
+(* the bracket itself, for ANY work done inside it that leaves the var_types it is given alone *)
+Theorem C02_target_bracket_restores :
+  forall (X : Type) G t (body : tenv -> option (X * tenv)) x G1,
+    (forall G0 y G2, body G0 = Some (y, G2) -> G2 = G0) ->
+    with_target G t body = Some (x, G1) -> G1 = G.
+Proof. exact with_target_frame. Qed.
+Print Assumptions C02_target_bracket_restores.
+
+(* ... in particular the one of _to_c_expr *)
+Theorem C02_translation_keeps_var_types_partial :
+  forall F A C r G G1, rhs_pure F A C G r = true -> toc_rhs_types F A C G r = Some G1 -> G1 = G.
+Proof. exact toc_rhs_frame. Qed.
+Print Assumptions C02_translation_keeps_var_types_partial.
+
+Example C02_comprehension_nonvacuous :
+  env_sound comp_G comp_rho /\ rhs_guard [] [] None comp_G demo_comp = true /\
+  infer_rhs_s [] [] None comp_G demo_comp = Some (TList TFloat, comp_G) /\
+  exists vs, eval_rhs comp_rho demo_comp = Ok (VList vs) /\ length vs = 3%nat.
+Proof. exact comp_nonvacuous. Qed.
+Print Assumptions C02_comprehension_nonvacuous.
+
+(* t = 0.0 ; L = [t * 2 for t in range(4)] ; y = t * 2 : t keeps its label, y is declared float *)
+Example C02_shadowing_target_keeps_label :
+  exists ps, run_items None shadow_prog = Some ps /\
+             tget (d_types (p_ctx ps)) z_t = TFloat /\
+             p_globals ps = [(z_t, CFloat); (z_L, CList CInt); (z_y, CFloat)].
+Proof. exact shadow_keeps_label. Qed.
+Print Assumptions C02_shadowing_target_keeps_label.
+
+(* ---------------------------------------------------------------- call sites and signature aliases *)
+
+(* Whatever the function tables contain (whatever call sites were met before, in whatever order): once the variant
+   for a requested signature sg has been parsed, a call with signature sg resolves - through the alias when the body
+   widened a parameter - to the definition stored under the final signature, and the call expression is labelled with
+   exactly that definition's return type.  Guard: sg has no alias yet (_ensure_function_variant only parses a
+   signature whose canonical form has no definition). *)
+Theorem C02_call_site_typed_from_its_variant_partial :
+  forall C fe cur name src sg fe1 p1 final,
+    sig_lookup sg (get_or [] (tlookup name (fe_alias fe))) = None ->
+    parse_function_core C fe cur name src (Some sg) = Some (fe1, p1, final) ->
+    resolve_alias (fe_alias fe1) name sg = final /\
+    exists d t, sig_lookup final (get_or [] (tlookup name (fe_defs fe1))) = Some d /\
+                resolve_call (fe_F fe1) (fe_alias fe1) name sg = Some t /\
+                fd_ret d = cpp_type t.
+Proof. exact call_site_typed_from_its_variant. Qed.
+Print Assumptions C02_call_site_typed_from_its_variant_partial.
+
+(* def blend(a, b): a = a + b ; return a   after blend(x, y) on floats: the (float, float) variant exists, and
+   parsing the second call site blend(1, y) still labels it float *)
+Example C02_call_site_nonvacuous :
+  exists ps fe1 p1,
+    blend_after_final_first = Some ps /\
+    sig_lookup [TFloat; TFloat] (get_or [] (tlookup z_blend (fe_defs (p_fe ps)))) <> None /\
+    sig_lookup [TInt; TFloat] (get_or [] (tlookup z_blend (fe_alias (p_fe ps)))) = None /\
+    parse_function_core None (p_fe ps) (p_ctx ps) z_blend blend_src (Some [TInt; TFloat]) = Some (fe1, p1, [TFloat; TFloat]) /\
+    resolve_call (fe_F fe1) (fe_alias fe1) z_blend [TInt; TFloat] = Some TFloat.
+Proof. exact call_site_nonvacuous. Qed.
+Print Assumptions C02_call_site_nonvacuous.
+
+(* refuted: requested signatures that end on the same final signature share ONE stored definition - the one parsed
+   last.  def blend(a, b): w = a * 2 ; a = a + b ; return a + w  with  p = blend(0.75, 0.25) ; q = blend(1, 0.25)
+   is emitted once, float blend(float a, float b) with int w: the first call computes w = 1.5, the device stores 1 *)
+Theorem C02_widened_variant_overwritten_refuted :
+  exists ps d,
+    run_items None overwritten_prog = Some ps /\
+    selected_functions (p_fe ps) = [(z_blend, d)] /\
+    fd_params d = [(z_a, CFloat); (z_b, CFloat)] /\ fd_ret d = CFloat /\
+    tlookup z_w (fd_locals d) = Some CInt /\
+    peval [(z_a, VFloat (3 # 4))] (EBin Mult (EName z_a) (EInt 2)) = Ok (VFloat (3 # 2)) /\
+    ~ crepr CInt (VFloat (3 # 2)) /\ c_store CInt (VFloat (3 # 2)) = Some (VInt 1).
+Proof. exact widened_variant_overwritten. Qed.
+Print Assumptions C02_widened_variant_overwritten_refuted.
+
+(* ... float w with the first call site alone *)
+Example C02_single_call_variant :
+  exists ps d,
+    run_items None single_call_prog = Some ps /\
+    selected_functions (p_fe ps) = [(z_blend, d)] /\ tlookup z_w (fd_locals d) = Some CFloat.
+Proof. exact single_call_variant. Qed.
+Print Assumptions C02_single_call_variant.
